@@ -119,11 +119,26 @@ def bloom_c06(cfg, st, keys, hf, bad):
         last = blob[f.bloom_length - 1]
         if last >> (f.number_bits % 8):
             bad("C06", "bloom.padding_bits_zero", {"last_byte": last, "number_bits": f.number_bits})
-    header_oracle(f, blob, bad, "bloom", counting=False)
+    header_oracle(f, blob, bad, "bloom", counting=False, compile_it=(len(m["keys"]) <= 1 and m["count"] in (0, 1) and cfg["n"] in (1, 5, 10)) or cfg.get("compile_all"))
 
 
-def header_oracle(f, blob, bad, tag, counting):
-    """export_c_header: the C header carries the same cells and constants as the binary export"""
+_PROBE_C = r"""
+#include <stdio.h>
+#include <stddef.h>
+#include "f.h"
+int main(void) {
+    unsigned long long s = 0;
+    for (size_t i = 0; i < sizeof(bloom); i++) s = s * 131ULL + bloom[i];
+    printf("%llu %llu %.9g %llu %u %zu %llu\n", (unsigned long long)estimated_elements, (unsigned long long)elements_added,
+           (double)false_positive_rate, (unsigned long long)number_bits, (unsigned)number_hashes, sizeof(bloom), s);
+    return 0;
+}
+"""
+
+
+def header_oracle(f, blob, bad, tag, counting, compile_it=False):
+    """export_c_header: the C header carries the same cells and constants as the binary export
+    (parsed; with compile_it it is also compiled with gcc together with a probe program and executed)"""
     tmp = tempfile.mkdtemp(prefix="vch")
     try:
         path = os.path.join(tmp, "f.h")
@@ -133,6 +148,24 @@ def header_oracle(f, blob, bad, tag, counting):
             return
         with open(path, encoding="utf-8") as fh:
             text = fh.read()
+        if compile_it:
+            STATS["c_headers_compiled"] = STATS.get("c_headers_compiled", 0) + 1
+            with open(os.path.join(tmp, "probe.c"), "w") as fh:
+                fh.write(_PROBE_C)
+            cc = subprocess.run(["gcc", "-std=c99", "-Wall", "-Werror", "-o", os.path.join(tmp, "probe"), os.path.join(tmp, "probe.c")],
+                                capture_output=True, text=True, cwd=tmp)
+            if cc.returncode != 0:
+                bad("C06", f"{tag}.c_header_compiles", {"gcc": cc.stderr[-400:]})
+            else:
+                out = subprocess.run([os.path.join(tmp, "probe")], capture_output=True, text=True).stdout.split()
+                hexs = bytes.fromhex(f.export_hex())
+                acc = 0
+                for byte in hexs:
+                    acc = (acc * 131 + byte) % (1 << 64)
+                want = [str(f.estimated_elements), str(f.elements_added), "%.9g" % f.false_positive_rate, str(f.number_bits),
+                        str(f.number_hashes), str(len(hexs)), str(acc)]
+                if out != want:
+                    bad("C06", f"{tag}.c_header_compiled_values", {"program_printed": out, "expected": want})
     finally:
         import shutil
 
@@ -220,7 +253,7 @@ def cbf_c06(cfg, st, keys, hf, bad):
             half, hexs = w[1].split()
             if half != "1" and bytes.fromhex(hexs) != blob:
                 bad("C06", "cbf.c_writer_same_file", {"c": hexs[:200], "py": blob.hex()[:200], "true": m["true"]})
-    header_oracle(f, blob, bad, "cbf", counting=True)
+    header_oracle(f, blob, bad, "cbf", counting=True, compile_it=(sum(m["true"]) <= 2 and cfg["n"] in (3,)) or cfg.get("compile_all"))
 
 
 # ---------------------------------------------------------------- count-min family
